@@ -1,4 +1,5 @@
 import PytaskProofs.Lemmas.EngineFail
+import PytaskModel.BuildTop
 /-! Exit code of the engine's `build` when a task failed (shared by C04 and C08). -/
 namespace Pytask
 namespace Engine
@@ -20,4 +21,25 @@ theorem C04_exit' {w : World} {picks : List Nat} {r : Result}
   · rw [hr] at ht; cases ht
 
 end Engine
+
+open BuildTop
+
+theorem handles_exception (names : List String) (c : String) (h : names.contains "Exception" = true) :
+    handles names (.exn c) = true := by
+  have : "Exception" ∈ names := by simpa using h
+  simp [handles, this]
+
+theorem ladderFind_exn (c : String) : ∃ code, ladderFind Generated.buildLadder (.exn c) = some code ∧
+    (code = "COLLECTION_FAILED" ∨ code = "DAG_FAILED" ∨ code = "FAILED") := by
+  unfold ladderFind
+  simp only [Generated.buildLadder, List.find?_cons, handles]
+  by_cases h1 : c = "CollectionError"
+  · subst h1; exact ⟨_, by decide, Or.inl rfl⟩
+  by_cases h2 : c = "ResolvingDependenciesError"
+  · subst h2; exact ⟨_, by decide, Or.inr (Or.inl rfl)⟩
+  refine ⟨"FAILED", ?_, Or.inr (Or.inr rfl)⟩
+  by_cases h3 : c = "ExecutionError"
+  · subst h3; decide
+  · simp [h1, h2, h3]
+
 end Pytask
